@@ -76,3 +76,115 @@ def seg_of(seg_id, *vals):
     for v in vals:
         s.append(v)
     return s
+
+
+# ------------------------------------------------------------------ driving the error handler the way x12n_document does
+class SetShape(object):
+    def __init__(self, ctl, st_err=None, seg_err=False, ele_err=False, st_ele_err=False, se_ele_err=False, closed=True,
+                 bad_value='ZZ', n_body=2):
+        self.ctl, self.st_err, self.seg_err, self.ele_err = ctl, st_err, seg_err, ele_err
+        self.st_ele_err, self.se_ele_err, self.closed, self.bad_value, self.n_body = st_ele_err, se_ele_err, closed, bad_value, n_body
+
+    def any_error(self):
+        return bool(self.st_err or self.seg_err or self.ele_err or self.st_ele_err or self.se_ele_err or not self.closed)
+
+
+class GroupShape(object):
+    def __init__(self, ctl, sets, ge01=None, gs_err=None, gs_ele_err=False, closed=True, fic='HC', vriic='004010X098A1', ge_ele_err=False):
+        self.ctl, self.sets, self.ge01, self.gs_err, self.gs_ele_err, self.closed = ctl, sets, ge01, gs_err, gs_ele_err, closed
+        self.ge_ele_err = ge_ele_err and closed
+        self.fic, self.vriic = fic, vriic
+
+    def any_error(self):
+        return bool(self.gs_err or self.gs_ele_err or self.ge_ele_err or not self.closed or any(s.any_error() for s in self.sets))
+
+
+def build_tree(groups, icvn='00401', st_vriic=None, sender='SENDER         ', receiver='RECEIVER       ', ta1='0', more=()):
+    """Drive the REAL err_handler through the call sequence of x12n_document for the given shape; returns (errh, src).
+    `more`: further interchanges, each a list of groups."""
+    errh = pyx12.error_handler.err_handler()
+    src = Src()
+    line = 0
+    for k, grps in enumerate([groups] + list(more)):
+        line = _one_interchange(errh, src, grps, '00000000%d' % (k + 1), line, icvn, st_vriic, sender, receiver, ta1)
+    return errh, src
+
+
+def _one_interchange(errh, src, groups, isa_ctl, line, icvn, st_vriic, sender, receiver, ta1):
+    line += 1
+    src.isa_id, src.cur_line = isa_ctl, line
+    errh.add_isa_loop(isa_segment(ctl=isa_ctl, icvn=icvn, sender=sender, receiver=receiver, ta1=ta1), src)
+    for g in groups:
+        line += 1
+        src.gs_id, src.cur_line, src.st_count = g.ctl, line, 0
+        errh.add_gs_loop(gs_segment(ctl=g.ctl, fic=g.fic, vriic=g.vriic), src)
+        if g.gs_err:
+            errh.gs_error(g.gs_err, 'GS error %s' % g.gs_err)
+        if g.gs_ele_err:
+            errh.add_ele(MapNode('GS04 date', data_ele='373', seq=4))
+            errh.ele_error('8', 'Data element "Date" (GS04) contains an invalid date', 'X')
+        for s in g.sets:
+            line += 1
+            src.st_id, src.cur_line = s.ctl, line
+            src.st_count += 1
+            errh.add_st_loop(st_segment(ctl=s.ctl, vriic=st_vriic), src)
+            if s.st_ele_err:
+                errh.add_ele(MapNode('ST02 control', data_ele='329', seq=2))
+                errh.ele_error('5', 'Data element "Transaction Set Control Number" (ST02) is too long', s.ctl)
+            seg_count = 1
+            for b in range(s.n_body):
+                line += 1
+                seg_count += 1
+                src.cur_line = line
+                errh.add_seg(MapNode('Body %d' % b, pos=20 + b), seg_of('NM1', '85', 'X'), seg_count, line, None)
+                if b == 0 and s.seg_err:
+                    errh.seg_error('8', 'Segment has data element errors', None)
+                if b == 1 and s.ele_err:
+                    errh.add_ele(MapNode('NM102', data_ele='1065', seq=2))
+                    errh.ele_error('7', '(%s) is not a valid code' % s.bad_value, s.bad_value)
+            if s.closed:
+                line += 1
+                src.cur_line = line
+                if s.st_err:
+                    errh.st_error(s.st_err, 'ST level error %s' % s.st_err)
+                errh.close_st_loop(None, seg_of('SE', '%d' % (seg_count + 1), s.ctl), src)
+                if s.se_ele_err:
+                    errh.add_ele(MapNode('SE01 count', data_ele='96', seq=1))
+                    errh.ele_error('6', 'Data element "Number of Included Segments" (SE01) is invalid', 'X')
+            else:
+                errh.st_error('2', 'Mandatory segment "Transaction Set Trailer" (SE=%s) missing' % s.ctl)
+        if g.closed:
+            line += 1
+            src.cur_line = line
+            ge01 = g.ge01 if g.ge01 is not None else '%d' % len(g.sets)
+            errh.close_gs_loop(None, seg_of('GE', ge01, g.ctl), src)
+            if g.ge_ele_err:
+                errh.add_ele(MapNode('GE02 control', data_ele='28', seq=2))
+                errh.ele_error('6', 'Data element "Group Control Number" (GE02) is invalid', 'X')
+        else:
+            errh.gs_error('3', 'Mandatory segment "Functional Group Trailer" (GE=%s) missing' % g.ctl)
+    line += 1
+    src.cur_line = line
+    errh.close_isa_loop(None, seg_of('IEA', '%d' % len(groups), isa_ctl), src)
+    return line
+
+
+class Sink(object):
+    def __init__(self):
+        self.parts = []
+
+    def write(self, t):
+        self.parts.append(t)
+
+    def getvalue(self):
+        return ''.join(self.parts)
+
+
+def ack_segments(text):
+    """[[seg id, e1, e2, ...], ...] of an acknowledgement written with ~ * :"""
+    out = []
+    for line in text.split('~'):
+        line = line.strip('\r\n')
+        if line != '':
+            out.append(line.split('*'))
+    return out
